@@ -63,7 +63,7 @@ _env = None
 def env():
     global _env
     if _env is None:
-        _env = X.Env(custom={'mix': _c_mix, 'inner': _c_inner, 'qq': _c_qq, 'sf': _c_sf, 'inner2': _c_inner2, 'ms': _c_ms, 'wb': _c_wb, 'py_intfirst': _py_g, 'py_plain': _py_f, 'py_deriv': _py_f, 'py_both': _py_f},
+        _env = X.Env(custom={'mix': _c_mix, 'inner': _c_inner, 'qq': _c_qq, 'sf': _c_sf, 'inner2': _c_inner2, 'ms': _c_ms, 'wb': _c_wb, 'py_intfirst': _py_g, 'py_np0d': _py_f, 'py_np0d0': _py_f0, 'py_plain': _py_f, 'py_deriv': _py_f, 'py_both': _py_f},
                      tables={k: X.RefTable(*v) for k, v in TABLE_DATA.items()})
     return _env
 
@@ -113,6 +113,8 @@ def library():
                             "rmin": None, "attach": ['>=', 1.4], "end": mod('trans', form('buck', 1388.773, 0.3623, 175.0), x=0.25), "first": None}), set()),
         # more ranges than any hand-written search would special-case: a piecewise potential with one polynomial per knot interval
         ('twelverange', D(*[('>=' if k % 2 else '>', 0.25 * k, form('polynomial', 3.0 - 0.2 * k, -1.0 + 0.05 * k, 0.1 + 0.01 * k)) for k in range(12)]), {'api'}),
+        # a very short-ranged repulsion: its tail underflows to 1e-100 .. 1e-170 on ordinary grids (three-digit exponents)
+        ('tiny_tail', D(form('bornmayer', 1000.0, 0.03)), {'api'}),
         ('buck4', D(form('buck4', 1388.773, 0.3623, 175.0, 1.2, 2.1, 2.6)), {'api'}),
         ('custom', D({"custom": "mix", "params": [700.0, 0.4]}), {'numeric'}),
         ('custom_in_sum', D(mod('sum', {"custom": "inner", "params": [12.0]}, form('bornmayer', 850.0, 0.35))), {'numeric'}),
@@ -152,6 +154,11 @@ def _py_f(r):          # reference (Jet) for all three python-only callables
     return 4.0 * jexp(-1.3 * r) + 0.05 * r * r - 0.7 / r
 
 
+def _py_f0(r):         # regular at r = 0
+    r = r if isinstance(r, Jet) else Jet.var(r)
+    return 4.0 * jexp(-1.3 * r) + 0.05 * r * r
+
+
 PY_RC = 0.4371      # plateau radius of py_intfirst (not on any decimal grid)
 
 
@@ -189,8 +196,17 @@ def py_callables():
         def g(r):
             return 3 if r < PY_RC else 3.0 * math.exp(-2.0 * (r - PY_RC))
         return g
+    def np0d():
+        # what scipy interpolants return: a 0-d numpy array
+        import numpy
+        f = plain()
+        return lambda r: numpy.array(f(r))
+
+    def np0d0():
+        import numpy
+        return lambda r: numpy.array(4.0 * math.exp(-1.3 * r) + 0.05 * r * r)
     return {'py_plain': (plain, _py_f, True), 'py_deriv': (with_deriv, _py_f, False), 'py_both': (with_both, _py_f, False),
-            'py_intfirst': (intfirst, _py_g, True)}
+            'py_intfirst': (intfirst, _py_g, True), 'py_np0d': (np0d, _py_f, True), 'py_np0d0': (np0d0, _py_f0, True)}
 
 
 PY_BREAKPOINTS = {'py_intfirst': [PY_RC]}
